@@ -450,7 +450,7 @@ fn check_syntect(fg: (u8, u8, u8, u8), bg: (u8, u8, u8, u8), font: u8) -> Result
 
 fn run(args: &Args, rep: &mut Report) {
     let tier = args.tier;
-    rep.assume("what each target library can express is an explicit table in this check (projection()); termcolor: bold/dim/italic/underline only (the adapter's minimum supported version), brightness not required; ansi_term: bright foreground = hue + bold, bright background = hue");
+    rep.assume("what each target library can express is an explicit table in this check (projection()), taken from the public API of the library versions in the lock file: crossterm - the eight classic effects, the four further underline kinds and an underline colour; termcolor - bold/dim/italic/underline/strikethrough, brightness not required (one `intense` flag for both grounds); ansi_term - bright foreground = hue + bold, bright background = hue");
     rep.assume("owo-colors 4.0.0 renders 'background without foreground + effect' without the ';' separator; those cases are decided at value level only");
     let colors = all_colors();
     let n = rt::workers();
